@@ -372,6 +372,9 @@ func checkC07(c *Ctx) {
 	c.Decides("REINDEX-LAST (go/cfg, shared with C04): Resolve and RemoveEdges pass a refresh of bitsets, hash codes and depths on every path from each of their structural edits to a successful exit")
 	c.reindexLast("REINDEX-LAST", []string{"Resolve", "RemoveEdges"}, "leaves all other splits with their lengths and supports", false)
 	c.Require("REINDEX-LAST/tree.Tree.Resolve/refresh-after-last-edit", "REINDEX-LAST/tree.Tree.RemoveEdges/refresh-after-last-edit")
+	c.Decides("FILL-STEP: a loop of package tree that fills a slice through a running position declared outside the loop steps that position in the statement list of the store (resolveRecur's list of branches to regroup gets one branch per slot)")
+	c.fillStep("FILL-STEP", c.AllFuncs("tree"), "yields a fully binary tree")
+	c.Floor("FILL-STEP", 1)
 	c.Decides("NO-RENAME: no call path from RemoveEdges, the Collapse* operations, Resolve or resolveRecur reaches Node.SetName or writes a node's name")
 	c.noRename("NO-RENAME", []*FuncInfo{c.Func("tree", "Tree", "RemoveEdges"), c.Func("tree", "Tree", "CollapseShortBranches"), c.Func("tree", "Tree", "CollapseLowSupport"), c.Func("tree", "Tree", "CollapseTopoDepth"), c.Func("tree", "Tree", "Resolve"), c.Func("tree", "Tree", "resolveRecur")}, "all names untouched")
 	c.Floor("NO-RENAME", 6)
